@@ -205,7 +205,7 @@ def stepP (gv : GVars) (str : Bytes) (st : PState) : PState :=
   ({ st.1 with matches_ := st.1.matches_ ++ [pv.name] }, pv.name, pv.regex, st.2.2.2.1 ++ rawOf pv, st.2.2.2.2 ++ varReOf pv)
 
 /-- block 6 (the `if strings.IndexByte(nvStr, ':') > 0 {…} else {…}` of the loop) in terms of the model's `parseVarIn` -/
-theorem blk6_eq (route : Gen.Route) (findAll : Bytes → List Bytes) (replacer : List Bytes → Bytes → Bytes) (gv : GVars)
+theorem ppBlk6_eq (route : Gen.Route) (findAll : Bytes → List Bytes) (replacer : List Bytes → Bytes → Bytes) (gv : GVars)
     (mc : Bytes → Except Panic Unit) (ns : Option Bytes → Int) (first_ path : Bytes) (ss : List Bytes)
     (n v : Bytes) (rawVar varRegex : List Bytes) (str : Bytes) :
     Gen.Router.parseParamRoute.blk6 route findAll replacer gv mc ns first_ path ss n v rawVar varRegex str
@@ -414,7 +414,7 @@ theorem compile_vars_eq (gv : GVars) (path : Bytes) (hne : (findVars (path.lengt
 
 /-! ### the blocks behind the loop -/
 
-theorem blk13_eq (route : Gen.Route) (fa : Bytes → List Bytes) (rep : List Bytes → Bytes → Bytes) (gv : GVars)
+theorem ppBlk13_eq (route : Gen.Route) (fa : Bytes → List Bytes) (rep : List Bytes → Bytes → Bytes) (gv : GVars)
     (mc : Bytes → Except Panic Unit) (ns : Option Bytes → Int) (first_ path : Bytes) (ss : List Bytes)
     (n v : Bytes) (rawVar varRegex : List Bytes) :
     Gen.Router.parseParamRoute.blk13 route fa rep gv mc ns first_ path ss n v rawVar varRegex =
@@ -427,7 +427,7 @@ theorem blk13_eq (route : Gen.Route) (fa : Bytes → List Bytes) (rep : List Byt
     have : ¬ (((t.length : Int) + 1) ≤ 0) := by omega
     simp [this]
 
-theorem blk14_eq (route : Gen.Route) (fa : Bytes → List Bytes) (rep : List Bytes → Bytes → Bytes) (gv : GVars)
+theorem ppBlk14_eq (route : Gen.Route) (fa : Bytes → List Bytes) (rep : List Bytes → Bytes → Bytes) (gv : GVars)
     (mc : Bytes → Except Panic Unit) (ns : Option Bytes → Int) (first_ path : Bytes) (ss : List Bytes)
     (n v : Bytes) (rawVar varRegex : List Bytes) (argPos optPos minPos : Int) :
     Gen.Router.parseParamRoute.blk14 route fa rep gv mc ns first_ path ss n v rawVar varRegex argPos optPos minPos =
@@ -436,7 +436,7 @@ theorem blk14_eq (route : Gen.Route) (fa : Bytes → List Bytes) (rep : List Byt
   simp only [Id.run, pure]
   by_cases h1 : optPos > 0 <;> by_cases h2 : argPos > optPos <;> simp [h1, h2]
 
-theorem blk21_eq (route : Gen.Route) (fa : Bytes → List Bytes) (rep : List Bytes → Bytes → Bytes) (gv : GVars)
+theorem ppBlk21_eq (route : Gen.Route) (fa : Bytes → List Bytes) (rep : List Bytes → Bytes → Bytes) (gv : GVars)
     (mc : Bytes → Except Panic Unit) (ns : Option Bytes → Int) (first_ path : Bytes) (ss : List Bytes)
     (n v : Bytes) (rawVar varRegex : List Bytes) (argPos optPos minPos : Int) (start : Bytes) :
     Gen.Router.parseParamRoute.blk21 route fa rep gv mc ns first_ path ss n v rawVar varRegex argPos optPos minPos start =
@@ -465,7 +465,7 @@ theorem slice_1_to (s : Bytes) (pos : Nat) (h : pos + 1 ≤ s.length) :
   congr 2
 
 /-- block 16 (`if len(start) > 1 {…}`): the literal prefix and its first segment, as the model computes them -/
-theorem blk16_eq (route : Gen.Route) (fa : Bytes → List Bytes) (rep : List Bytes → Bytes → Bytes) (gv : GVars)
+theorem ppBlk16_eq (route : Gen.Route) (fa : Bytes → List Bytes) (rep : List Bytes → Bytes → Bytes) (gv : GVars)
     (mc : Bytes → Except Panic Unit) (ns : Option Bytes → Int) (path : Bytes) (ss : List Bytes)
     (n v : Bytes) (rawVar varRegex : List Bytes) (argPos optPos minPos : Int) (start : Bytes) :
     Gen.Router.parseParamRoute.blk16 route fa rep gv mc ns [] path ss n v rawVar varRegex argPos optPos minPos start =
@@ -580,7 +580,7 @@ theorem tie_parseParamRoute_vars (route : Gen.Route) (gv : GVars) (info : RouteI
         rw [(pp_loop gv _ ss (by
           intro str hs st
           have h2 := hmem str hs
-          simp only [slice_inner str h2, blk6_eq]
+          simp only [slice_inner str h2, ppBlk6_eq]
           obtain ⟨hg, hb⟩ := tie_goodRegexString st.1 (parseVarIn gv str).name (parseVarIn gv str).regex
           constructor
           · intro hgr; simp only [hg hgr]; rfl
@@ -592,7 +592,7 @@ theorem tie_parseParamRoute_vars (route : Gen.Route) (gv : GVars) (info : RouteI
         simp only at f1 f2 f3
         simp only [List.nil_append, hvars] at f1 f2 f3
         subst f1 f2 f3
-        simp only [blk13_eq, blk14_eq, blk16_eq, blk21_eq]
+        simp only [ppBlk13_eq, ppBlk14_eq, ppBlk16_eq, ppBlk21_eq]
         -- the path after the first replacement, and the route record at that point
         have hfl : (vars.flatMap rawOf = []) ↔ (vars.filter (·.hasRegex)) = [] := by
           have hl := raw_length vars
